@@ -81,6 +81,7 @@ class OperatorResolver(metaclass=abc.ABCMeta):
             raise exc_for_token(token, f"Unknown operator '{symbol}'.")
         return token, self.operator_table[symbol]
 
-    # The operator table cache may not be pickleable, so let's drop it.
+    # The operator table cache may not be pickleable, so let's drop it (but keep
+    # everything else, e.g. the configuration of subclasses).
     def __getstate__(self) -> dict:
-        return {}
+        return {k: v for k, v in self.__dict__.items() if k != "operator_table"}
